@@ -100,7 +100,7 @@ pub fn persist(r: &E2Replay) -> PathBuf {
 }
 
 /// Fan out, aggregate, minimise (in a worker), classify, write evidence. Returns the exit code.
-pub fn run_check(spec: &CheckSpec, tier: &str, extra_cov: &dyn Fn(&E2Summary, &mut Evidence)) -> i32 {
+pub fn run_check(spec: &CheckSpec, tier: &str, extra_cov: &dyn Fn(&E2Summary, &mut Evidence) -> i64) -> i32 {
     let seed = crate::global_seed();
     println!("VERIF_SEED={seed} property={} tier={tier} engine={}", spec.property, spec.worker);
     let started = Instant::now();
@@ -174,7 +174,9 @@ pub fn run_check(spec: &CheckSpec, tier: &str, extra_cov: &dyn Fn(&E2Summary, &m
     ev.cov("simulated_time", json!("no clock is read on any path under this property; one logical step per phase invocation"));
     ev.cov("components", json!({"real": crate::evidence::REAL_COMPONENTS, "stub": spec.stub}));
     ev.cov("known_findings_seen", json!(known_hits));
-    extra_cov(&sum, &mut ev);
+    // further classes of the same check (they print their own violation lines)
+    let reported = reported + extra_cov(&sum, &mut ev);
+    let wall = started.elapsed().as_secs_f64();
     ev.assumptions = spec.assumptions.iter().map(|s| (*s).to_string()).collect();
     ev.wall_s = wall;
     ev.violations = reported;
